@@ -168,3 +168,29 @@ Definition chosen_ok (a : attrs) (ps : list policy) (eps : list string) (m : ma_
 
 (* (4) the decision depends only on the attributes and the current policy list *)
 Definition age_ok (o : obs) : bool := ma_eqb (o_fresh o) (o_aged o).
+
+(* ---------- a match that overlaps a Sync ---------- *)
+(* the decision under one policy list, as MatchAttributes reports it *)
+Definition decision (a : attrs) (ps : list policy) (eps : list string) : ma_obs :=
+  match first_match a ps with
+  | None => mkMA true false "" []
+  | Some i =>
+      match nth_error ps i with
+      | None => mkMA true false "" []
+      | Some p => mkMA false true (match p_flow p with EmptyString => "system-default" | f => f end)
+                       (match p_subset p with [] => eps | s => s end)
+      end
+  end.
+
+Record ov_obs := mkOv {
+  ov_fired : bool;               (* Sync(new list) did run inside the overlapped MatchAttributes call *)
+  ov_during : ma_obs;            (* what that call answered *)
+  ov_after : ma_obs;             (* a plain MatchAttributes right afterwards *)
+}.
+
+(* (5) the answer of a match overlapping a Sync is the decision under the old list or the decision
+   under the new list (so the policy it names has a rule matching the request in the list it came
+   from), never a third thing; afterwards the list in force is the one last synced *)
+Definition atomic_list_ok (a : attrs) (old new : list policy) (eps : list string) (o : ov_obs) : bool :=
+  (ma_eqb (ov_during o) (decision a old eps) || ma_eqb (ov_during o) (decision a new eps))
+  && ma_eqb (ov_after o) (decision a (if ov_fired o then new else old) eps).
